@@ -130,6 +130,7 @@ var specs = map[string]propSpec{
 			{Name: "rapid-mutated-inputs", Test: "TestC06Rapid", Rapid: true, QuickChecks: 100000, ThoroughChecks: 1000000, QuickShards: 4, ThoroughShards: 12},
 			{Name: "enum-deep-nesting", Test: "TestC06Deep", QuickShards: 2, ThoroughShards: 4, ThoroughTimeoutS: 3000},
 			{Name: "enum-mixed-nesting", Test: "TestC06Mixed", QuickShards: 2, ThoroughShards: 2},
+			{Name: "enum-two-phase-nesting", Test: "TestC06TwoPhase", QuickShards: 4, ThoroughShards: 5, ThoroughTimeoutS: 3000},
 			{Name: "fuzz-compile", Fuzz: "FuzzCompile", Tier: "thorough", FuzzTimeS: 120, ThoroughShards: 1, ThoroughTimeoutS: 900},
 		},
 		Assumptions: []string{"termination is decided within an explicit wall-clock margin (20 s for inputs <= 64 KB whose typical cost is < 10 ms, re-tried once alone); an algorithm that is merely slow on inputs larger than the generated ones is out of reach", "the quick tier runs the depth cases under debug.SetMaxStack(8 MB): a legitimate process configuration under which unbounded recursion shows at depth 10^5 instead of 3*10^6"},
